@@ -210,6 +210,16 @@ def parse_tuple(line: str):
     return out if depth == 0 else None
 
 
+def _json_default(o):
+    import numpy as np
+
+    if isinstance(o, np.integer):
+        return int(o)
+    if isinstance(o, (set, tuple)):
+        return list(o)
+    raise TypeError(f"not JSON serialisable: {type(o)}")
+
+
 def run_tlc(
     module: str,
     cfg_text: str,
@@ -234,7 +244,9 @@ def run_tlc(
         env = dict(os.environ)
         if trace is not None:
             tf = work / "trace.json"
-            tf.write_text(json.dumps(trace))
+            tf.write_text(json.dumps(trace, default=_json_default))
+            if os.environ.get("VERIF_KEEP_TRACE"):
+                shutil.copy(tf, os.environ["VERIF_KEEP_TRACE"])
             env["TRACE_FILE"] = str(tf)
         if env_extra:
             env.update(env_extra)
